@@ -243,6 +243,7 @@ func builds() []Op {
 		b("dry:top", buildOpts{Target: tTop, Dry: true}),
 		b("dry:mid", buildOpts{Target: tMid, Dry: true}),
 		b("session:build:top,+pkg:other,reload,build:other", buildOpts{Target: tTop, Then: tOther, Session: &Vars{}}),
+		b("session:build:top(mid's body fails),cause repaired,build:top", buildOpts{Target: tTop, RetryAfter: "mid"}),
 		b("build:top+gc(one load)", buildOpts{Target: tTop, GCAfterRun: true}),
 		b("build:leaf+gc(one load)", buildOpts{Target: tLeaf, GCAfterRun: true}),
 		b("gc:full", buildOpts{GC: true}),
